@@ -117,6 +117,45 @@ def html_edit(r, t):
     return t
 
 
+HIGH = ["\ufb01", "\ufffd", "\U0001F600", "\uff01"]
+
+
+def tweak_texts(r, L, R):
+    """Shapes of text change that ordinary word edits do not produce: (a) the old text starts with what the new text ends with
+    (old = E + D, new = I + E, |E| = min(|I|, |D|): the reverse-overlap branch of the semantic clean-up), (b) characters above the
+    private-use area (U+F900 and up, astral) in texts that also receive placeholders."""
+    def slots(t):
+        return [(n, a) for n in t.iter() for a in ("text", "tail") if getattr(n, a) and (a == "text" or n is not t) and (n.kind == "e" or a == "tail")]
+
+    m = r.random()
+    if m < 0.5:
+        sl = [x for x in slots(R) if len(getattr(*x)) >= 2]
+        if sl:
+            n, a = r.choice(sl)
+            s = getattr(n, a)
+            k = r.randint(1, max(1, len(s) // 2))
+            ins = "".join(r.choice("qzv") for _ in range(k if r.random() < 0.7 else r.randint(1, k + 2)))
+            setattr(n, a, (ins + s[:k]) if r.random() < 0.7 else (s[-k:] + ins))
+    else:
+        h = r.choice(HIGH)
+        both = r.random() < 0.5
+        for t in ((L, R) if both else (R,)):
+            sl = slots(t)
+            if sl:
+                rr = random_like(r, t is L)
+                n, a = sl[rr % len(sl)]
+                s = getattr(n, a)
+                i = rr % (len(s) + 1)
+                setattr(n, a, s[:i] + h + s[i:])
+
+
+def random_like(r, first):
+    # one draw shared by both documents so that the same slot is usually hit in L and R
+    if first or not hasattr(r, "_shared"):
+        r._shared = r.randrange(1 << 30)
+    return r._shared
+
+
 def rand_cfg(r, allow_tags=True):
     cfg = {"normalize": r.choice([0, 0, 1, 2, 3]), "pretty_print": r.random() < 0.3, "use_replace": r.random() < 0.3}
     m = r.random()
@@ -141,6 +180,8 @@ def case_for(seed, idx, tier):
     L.tail = R.tail = None
     if R.kind != "e":
         R.kind = "e"
+    if r.random() < 0.3:
+        tweak_texts(r, L, R)
     for t in (L, R):
         for n in t.iter():
             # annotations are decoded unambiguously only for names / values free of ';' and ':'
